@@ -6,12 +6,14 @@ ID = "C15"
 HARNESSES = [dict(name="cgnat", pkg="./internal/cgnat/", test="TestVerifC15", timeout=900,
                   files=[("internal/cgnat/zz_verif_c15_test.go", "harness/C15/zz_verif_c15_test.go")])]
 MODEL_NEEDS_IMPL = True
-# The model has one flag per defect that was found.  Fixed in /repo (a regression is a VIOLATION, no variant tried):
+# The model has one switch per defect that was found; all ten are fixed in /repo, so only the repaired model (= /repo
+# HEAD) is tried and a regression to any of them is a VIOLATION:
 # R restore unvalidated 285c7b2, A reverse Add duplicate 7d1d0b3, D duplicate outside address 3b1c45d, S synced rollback
 # 0cedd79, V inside VRF 0 53e73c2, X pools sharing an outside address 1fd8c60, L late add completion 8d8ac1d,
-# C port geometry unchecked by Validate 0e7517a, G preserved mapping not released 2953f22.
-# Open (deepen round): Q the restore-window event queue drops releases past its bound.
-VARIANTS = ["repaired", "def:Q"]
+# C port geometry unchecked by Validate 0e7517a, G preserved mapping not released 2953f22,
+# Q restore-window queue drops releases f92bf5a.
+# The driver still understands "def:<letters>" (historical _refuted replays, triage by hand).
+VARIANTS = ["repaired"]
 DEFECT_NAMES = {"R": "restore-unvalidated", "A": "reverse-add-duplicate", "D": "duplicate-outside-address",
                 "S": "synced-rollback-keeps-reverse-entries", "V": "inside-vrf-zero",
                 "X": "pool-outside-overlap", "L": "late-add-completion",
@@ -563,9 +565,7 @@ def config_invalid(case):
 
 
 def signature(case, impl, models):
-    if models.get("def:Q") == impl:
-        return DEFECT_NAMES["Q"]
-    return None
+    return None        # no finding is open
 
 
 def nontrivial(case, out):
